@@ -1124,7 +1124,9 @@ func (p *Parser) parseCastExpression() (*ast.CastExpression, error) {
 		p.advance() // Consume (
 
 		// Build the full type string including parameters
-		typeParams := "("
+		// (one builder: a long parameter list costs its length, not its square)
+		var typeParams strings.Builder
+		typeParams.WriteString("(")
 		paramCount := 0
 
 		for !p.isType(models.TokenTypeRParen) {
@@ -1132,7 +1134,7 @@ func (p *Parser) parseCastExpression() (*ast.CastExpression, error) {
 				if !p.isType(models.TokenTypeComma) {
 					return nil, p.expectedError(", or )")
 				}
-				typeParams += p.currentToken.Literal
+				typeParams.WriteString(p.currentToken.Literal)
 				p.advance() // Consume comma
 			}
 
@@ -1145,13 +1147,13 @@ func (p *Parser) parseCastExpression() (*ast.CastExpression, error) {
 				)
 			}
 
-			typeParams += p.currentToken.Literal
+			typeParams.WriteString(p.currentToken.Literal)
 			p.advance()
 			paramCount++
 		}
 
-		typeParams += ")"
-		dataType += typeParams
+		typeParams.WriteString(")")
+		dataType += typeParams.String()
 
 		if !p.isType(models.TokenTypeRParen) {
 			return nil, p.expectedError(")")
